@@ -113,6 +113,9 @@ def run(rep, tier):
     rep.rule('R14.3', 'run-state coverage: every persistent run-state member of the engines is serialized and restored, or exempt with a reason; InterpreterImpl restores what it saves')
     rep.rule('R14.4', 'foreign state is rejected first: in InterpreterImpl::deserialize the MD5 comparison dominates every restoring call; serialize() refuses unless the state is IDLE, MACROSTEPPED or FINISHED')
     rep.rule('R14.5', 'restore order: data-model values are restored before the micro-stepper state (which re-runs active invocations that read them)')
+    rep.rule('R14.7', 'finished stays finished: each engine writes whether it has finished (a finished machine has an empty configuration) and its deserialize() restores the FINISHED / TOP_LEVEL_FINAL bits')
+    rep.rule('R14.8', 'what the first microstep does besides entering states is done on resume too: the engines\' deserialize() (which skips the pristine microstep) runs the document\'s global scripts, or the interpreter persists what they defined')
+    rep.rule('R14.9', 'serialize() of an invoked session can take its lock: USCXMLInvoker::run does not hold the mutex that serialize() needs across an unbounded blocking step() of the child')
     rep.rule('R14.6', 'scalar encodings agree: a key whose reader converts the atom with strTo<T> is written by handing a value of the same type T to the generic Data(value, type) constructor (toStr of the same type), not a hand-written literal spelling ("true"/"false" is not what strTo<bool> reads)')
     rep.assume('behavioural identity of the resumed interpreter is not decided')
     tus = TUS if tier == 'quick' else facts.library_tus()
@@ -372,3 +375,28 @@ def run(rep, tier):
                 rep.check(ok, 'R14.6', '%s|%s' % (w.rec.split('::')[-1], ks[-1]), locstr(n), 'key "%s" is read with strTo<%s> and written from a value of type %s%s' % (
                     ks[-1], want_t, got_t or '?', '' if ok else ': the spelling the writer chooses is not the one toStr/strTo<%s> use' % want_t))
     rep.minimum('R14.6', n_scal, 1, 'scalar keys read with strTo<T>')
+
+    # ---- R14.7 .. R14.9 (audit round)
+    for eng in ('uscxml::LargeMicroStep', 'uscxml::FastMicroStep'):
+        w7, r7 = fb.fn(eng + '::serialize'), fb.fn(eng + '::deserialize')
+        writes = any(x['k'] == 'MemberExpr' and x['ref'].get('name') == '_flags' for x in w7.walk()) and any(m[0] == 'USCXML_CTX_FINISHED' for x in w7.walk() for m in (x.get('mac') or []))
+        restores = any(m[0] == 'USCXML_CTX_FINISHED' for x in r7.walk() for m in (x.get('mac') or []))
+        rep.check(writes and restores, 'R14.7', eng.split('::')[-1], w7.where(), '%s::serialize writes the FINISHED bit: %s; deserialize restores it: %s%s' % (eng.split('::')[-1], writes, restores,
+                  '' if writes and restores else ' -- a finished interpreter resumes with an empty configuration and never reports FINISHED again'))
+        runs_script = any(x['k'] == 'MemberExpr' and x['ref'].get('name') in ('onEntry', 'script') for x in r7.walk()) or any(x.get('callee', {}).get('q', '').endswith('MicroStepCallbacks::process') for x in r7.walk())
+        rep.check(runs_script, 'R14.8', eng.split('::')[-1], r7.where(), '%s::deserialize %s' % (eng.split('::')[-1], 're-runs the entry code of <scxml>' if runs_script else
+                  'restores sets only: the top-level <script> (entry code of <scxml>, run in the pristine microstep) is never executed in the resumed session - functions it defines are nil'))
+    inv_run = fb.fn('uscxml::USCXMLInvoker::run')
+    inv_ser = fb.fn('uscxml::USCXMLInvoker::serialize')
+    ser_locks = any(x['k'] == 'MemberExpr' and x['ref'].get('name') == '_mutex' for x in inv_ser.walk())
+    unbounded = []
+    for n in inv_run.walk():
+        if n['k'] == 'CXXMemberCallExpr' and n.get('callee', {}).get('q', '').endswith('Interpreter::step'):
+            args = [a_ for a_ in n.get('c', [])[1:] if a_ is not None and a_['k'] != 'CXXDefaultArgExpr']
+            scope = next((a_ for a_ in inv_run.ancestors(n) if a_['k'] == 'CompoundStmt'), None)
+            held = scope is not None and any(x['k'] == 'DeclStmt' and any('lock_guard' in (d_.get('t') or '') or 'unique_lock' in (d_.get('t') or '') for d_ in x.get('decls', [])) and any(
+                y['k'] == 'MemberExpr' and y['ref'].get('name') == '_mutex' for y in sub(x)) for x in scope.get('c', []) if x is not None)
+            if not args and held:
+                unbounded.append(n)
+    rep.check(not (ser_locks and unbounded), 'R14.9', 'USCXMLInvoker', locstr(unbounded[0]) if unbounded else inv_run.where(), 'the invoker thread %s' % (
+        'does not block under the mutex serialize() takes' if not (ser_locks and unbounded) else 'holds _mutex across step() without a time bound: while the child is idle, serialize() of the parent (which serializes its invokers under the same mutex) never returns'))
